@@ -240,12 +240,13 @@ func runCase(r *mon.Rec, idx int) {
 	if !okIn {
 		return
 	}
+	r.Current(replay{idx})
 	r.Eval(1)
 	hw := net.HardwareAddr(gen4.Bytes(rng, 6))
 	lip, lipw := ipv(rng)
 	type builder struct {
-		name  string
-		build func(ms ...dhcpv4.Modifier) (*dhcpv4.DHCPv4, error)
+		name   string
+		build  func(ms ...dhcpv4.Modifier) (*dhcpv4.DHCPv4, error)
 		xidDet bool
 	}
 	builders := []builder{
@@ -449,6 +450,9 @@ func TestCheck(t *testing.T) {
 	_ = time.Second
 	r := mon.New("C15")
 	defer r.Flush()
+	if os.Getenv("VERIF_REPLAY") == "" {
+		r.Watchdog(60 * time.Second)
+	}
 	var rp replay
 	if mon.ReplayCase(&rp) {
 		runCase(r, rp.Idx)
